@@ -3,8 +3,8 @@ import sys
 
 from props import _cluster
 
-THEOREMS = ['XmlDiffModel.C17_bounds_partial', 'XmlDiffModel.C17_attr_phase_only_attr_actions']
-PARTIAL = {'C17_bounds / C17_changes / C17_created_not_deleted': 'proved: inserts, renames, text and tail updates are each bounded by |R| for every matching; NOT proved: deletes <= |L|, moves <= 2|R|, the attribute-action bound, created-never-deleted and every-action-changes-the-document - decided per run by the counting oracle and the change-detecting strict replay of the real script (known finding R1: value-level no-op moves past identical siblings)'}
+THEOREMS = ['XmlDiffModel.C17_bounds_partial', 'XmlDiffModel.C17_moves_deletes_bounds', 'XmlDiffModel.C17_created_never_deleted', 'XmlDiffModel.C17_attr_phase_only_attr_actions']
+PARTIAL = {'C17_changes / attribute bound': "proved, any size and option set: at most |R| inserts, renames, text and tail updates (every matching); at most 2|R| moves and |L| deletes (every one-to-one matching, C17_moves_deletes_bounds); no node created by the script is deleted by it (C17_created_never_deleted, on the strict replay of the script). NOT proved: the attribute-action bound summed over the document (per node pair only attribute actions on that node are emitted) and every-action-changes-the-document - decided per run by the counting oracle and the change-detecting strict replay of the real script (known finding R1: value-level no-op moves past identical siblings)."}
 LEAN_MODULES = ['XmlDiffModel.Props.C17']
 SOURCES = ['diff.Differ.diff', 'diff.Differ.align_children', 'diff.Differ.update_node_attr', 'diff.Differ.update_node_text']
 RULE = 'Differ cluster: counting bounds on the real script against |L|, |R| and attribute counts; strict replay with per-action change detection on the id-tree and on the document value; created nodes never deleted. Non-trivial = script has >= 2 action types or a move.'
